@@ -135,6 +135,11 @@ class Session:
             if ok:
                 raise
             return None
+        except Exception:   # noqa: whatever a failed simulation raises, the caller sees a failed autofill and goes on
+            if ok:
+                raise
+            self.odd_failures = getattr(self, 'odd_failures', 0) + 1
+            return None
         finally:
             del self.node.sim_script[:]
         assert ok, 'harness: simulation scripted to fail, autofill returned'
